@@ -118,7 +118,7 @@ def live_vector(rng: random.Random, now_us: int, manifest: str, *, richness: flo
     if "minimumUpdatePeriod" in feats and maybe(0.4):
         q["mup"] = str(rng.choice([-1, 0, 1, 2, 3, 4, 7, 8, 30, 61]))
     if maybe(0.25):
-        q["leeway"] = str(rng.choice([16, 16, 20, 30, 60, 120]))
+        q["leeway"] = str(rng.choice([16, 16, 20, 30, 60, 120, 0, 2, 5, 9]))
     if "segmentTimeline" in feats and not mft.segment_timeline and maybe(0.6):
         q["timeline"] = rng.choice(["1", "1", "0"])
     if "useBaseUrls" in feats and maybe(0.4):
